@@ -34,9 +34,20 @@ LEVEL_NOTE = ("PARTIAL by nature: base64, the text layer (bytes -> lines, UTF-8)
               "with the iteration count clamped to len(data)+1 (an iteration on an exhausted buffer fails).  "
               "_unpad_openssh returns b'' for data ending in a 0 byte (data[:-0]) - modelled as is, a valid comment-less "
               "unpadded OpenSSH key therefore fails with SSHException (allowed by C37, noted).  bcrypt rounds are capped "
-              "at 64 in the harness process (a flipped rounds field would otherwise run for hours).  Trusted: Coq kernel "
-              "+ vm_compute, the hand-written model, this harness.")
-TECHNIQUE = "Coq proof over parser model with library oracles + vm_compute differential correspondence + byte-mutation oracle over real key files"
+              "at 64 in the harness process (a flipped rounds field would otherwise run for hours).  The BEGIN/END regexes (shape-checked), class tags, "
+              "_CIPHER_TABLE keys, OPENSSH_AUTH_MAGIC, _unpad_openssh thresholds, PEM header names and OpenSSH cipher / kdf names are "
+              "regenerated from the source by gen/c37.py every run (fail-closed).  Trusted: Coq kernel + vm_compute, the hand-written "
+              "model, gen/c37.py, this harness.")
+TECHNIQUE = "Coq proof over parser model (constants AST-translated by gen/c37.py) with library oracles + vm_compute differential correspondence + byte-mutation oracle over real key files"
+
+
+def mm(ctx, *a, **k):
+    """model evaluation guarded: a model / translator failure is reported, it never hides the oracle's findings"""
+    try:
+        return ctx.model_mismatches(*a, **k)
+    except Exception as e:   # noqa
+        ctx.disagree("model evaluation of %s failed: %s" % (a[0], str(e)[-400:]))
+        return []
 
 PW = {"test_rsa_password.key": "television", "test_ecdsa_password_256.key": "television",
       "test_ecdsa_password_384.key": "television", "test_ecdsa_password_521.key": "television",
@@ -129,7 +140,7 @@ def corr_unpad(ctx, n):
                          case={"data": d}, expected="SSHException", observed=type(e).__name__)
         ctx.count(("unpad", d), nontrivial=len(d) > 0, kind="unpad")
         cases.append((coq(list(d)), exp, d))
-    bad = ctx.model_mismatches("run_unpad", "(list Z)", [(a, b) for a, b, _ in cases])
+    bad = mm(ctx, "run_unpad", "(list Z)", [(a, b) for a, b, _ in cases])
     for i in bad[:3]:
         ctx.disagree("_unpad_openssh differs from the model", case={"data": cases[i][2]}, impl=cases[i][1])
 
@@ -205,7 +216,7 @@ def corr_scan(ctx, n):
                          case={"tag": TAGS[ti], "lines": lines}, expected="SSHException", observed=type(e).__name__)
         ctx.count(("scan", ti, tuple(lines)), nontrivial=len(lines) > 0, kind="scan")
         cases.append(("(%d, %s)" % (ti, lines_coq(lines)), exp, {"tag": TAGS[ti], "lines": lines}))
-    bad = ctx.model_mismatches("run_scan", "(Z * list (list Z))", [(a, b) for a, b, _ in cases])
+    bad = mm(ctx, "run_scan", "(Z * list (list Z))", [(a, b) for a, b, _ in cases])
     for i in bad[:3]:
         ctx.disagree("_read_private_key line scan differs from the model", case=cases[i][2], impl=cases[i][1][:30])
     ctx.sample({"scan": cases[0][2], "impl": cases[0][1][:20]})
@@ -282,7 +293,7 @@ def corr_pem(ctx, n):
         tbl = "[" + ";".join("(%d, %s)" % (k, "None" if v is None else "Some " + coq(v)) for k, v in sorted(table.items())) + "]"
         cases.append(("(%s, %d, %s, %s, (%d, %s))" % (lines_coq(lines), end, coq(haspw), tbl, dec[0], coq(dec[1])), exp,
                       {"lines": lines, "end": end, "password": haspw}))
-    bad = ctx.model_mismatches("run_pem", "(list (list Z) * Z * bool * list (Z * option (list Z)) * (Z * list Z))",
+    bad = mm(ctx, "run_pem", "(list (list Z) * Z * bool * list (Z * option (list Z)) * (Z * list Z))",
                                [(a, b) for a, b, _ in cases])
     for i in bad[:3]:
         ctx.disagree("_read_private_key_pem differs from the model", case=cases[i][2], impl=cases[i][1][:30])
@@ -408,7 +419,7 @@ def corr_openssh(ctx, n):
         ctx.count(("ossh", data, password), kind="openssh-container")
         cases.append(("(%s, %s, (%d, %s))" % ("None" if b64 is None else "Some " + coq(b64), coq(password is not None),
                                                dec[0], coq(dec[1])), exp, {"data": data, "password": password}))
-    bad = ctx.model_mismatches("run_openssh", "(option (list Z) * bool * (Z * list Z))", [(a, b) for a, b, _ in cases])
+    bad = mm(ctx, "run_openssh", "(option (list Z) * bool * (Z * list Z))", [(a, b) for a, b, _ in cases])
     for i in bad[:3]:
         ctx.disagree("_read_private_key_openssh differs from the model", case=cases[i][2], impl=cases[i][1][:30])
     ctx.sample({"openssh-container": cases[0][2], "impl": cases[0][1][:20]})
@@ -446,7 +457,7 @@ def corr_rsa_numbers(ctx, n):
                          observed=type(e).__name__)
         ctx.count(("rsanum", data), kind="rsa-numbers")
         cases.append(("(%s, %s)" % (coq(list(data)), coq(code == 0)), [code], {"data": data}))
-    bad = ctx.model_mismatches("run_rsa_numbers", "(list Z * bool)", [(a, b) for a, b, _ in cases])
+    bad = mm(ctx, "run_rsa_numbers", "(list Z * bool)", [(a, b) for a, b, _ in cases])
     for i in bad[:3]:
         ctx.disagree("RSAKey._decode_key (OpenSSH numbers) differs from the model", case=cases[i][2], impl=cases[i][1])
 
@@ -603,7 +614,7 @@ def corr_ed(ctx, n):
                 {"data": data, "password": password}))
     finally:
         paramiko.message.Message.get_text = orig_get_text
-    bad = ctx.model_mismatches("run_ed", "(list Z * Z * list (list Z) * bool * (Z * list Z) * list (list Z * list Z))",
+    bad = mm(ctx, "run_ed", "(list Z * Z * list (list Z) * bool * (Z * list Z) * list (list Z * list Z))",
                                [(a, b) for a, b, _ in cases], shard=100)
     for i in bad[:3]:
         ctx.disagree("Ed25519Key._parse_signing_key_data differs from the model", case=cases[i][2], impl=cases[i][1][:40])
